@@ -109,7 +109,8 @@ class C05(vlib.Check):
             "databases of the three kinds, bits in {8,64,1024,2^32}, duplicate and None names, 0-3 typed property columns; "
             "after every step every live database is dumped and compared with the model, and observed through db[i], "
             "db[name], the name index and iteration against a plain list-of-rows oracle; databases whose matrix holds explicitly "
-            "stored zeros are put through every read-only operation (frame only). Non-trivial: history with at least "
+            "stored zeros are put through every read-only operation (frame only); directed histories with the same property columns declared in "
+            "different orders and then concatenated; one accepted batch of 66 000+ fingerprints read back around every power-of-two row. Non-trivial: history with at least "
             "one derived database and one read; distinct by history.")
     trusted_base = ["SciPy CSR vstack / slicing / sum_duplicates, NumPy savez/load, pickle (compared on every run)"]
     faults = False
@@ -127,7 +128,58 @@ class C05(vlib.Check):
             c = dbgen.gen_colorder(self.rng)
             self.count("columns-declared-in-different-orders")
             yield c
+        if self.id == "C05":
+            # one very large accepted batch (a whole library added at once, beyond 2^16 rows; thorough: beyond 2^17), duplicate
+            # names and a property column; rows, names, name index and the column are then read back around every power-of-two
+            # boundary and at seeded positions
+            for n in ([66000] if self.tier == "quick" else [66000, 70000, 131100, 140000]):
+                self.count("very-large-batch-accepted:%d" % n)
+                yield {"t": "bigadd", "n": n + self.rng.randrange(40), "kind": self.rng.choice(["bit", "count"]), "split": self.rng.choice([None, None, 3, 40000]),
+                       "seed": self.rng.randrange(10 ** 6)}
         yield from self.gen_zero_cases()
+
+    def _bigadd_prop(self, case):
+        import numpy as np
+        from harness.fpgen import CLS, dump_fp
+        r = np.random.RandomState(case["seed"])
+        cls, n = CLS[case["kind"]], case["n"]
+        idx = r.randint(0, 4096, size=(n, 3))
+        fps = []
+        for i in range(n):
+            f = cls.from_indices(idx[i], bits=4096, level=5)
+            f.name = "m%d" % (i // 2)
+            f.set_prop("pi", i)
+            fps.append(f)
+        db = dbgen.FingerprintDatabase(fp_type=cls, level=5, name="big")
+        try:
+            if case["split"]:
+                db.add_fingerprints(fps[:case["split"]])
+                db.add_fingerprints(fps[case["split"]:])
+            else:
+                db.add_fingerprints(fps)
+        except Exception as e:  # noqa: BLE001
+            return {"key": "add-raises:very-large-batch:" + type(e).__name__, "what": "adding %d fingerprints raised %r" % (n, e)}
+        if len(db) != n or len(db.fp_names) != n:
+            return {"key": "len:very-large-batch", "what": "%d rows / %d names after adding %d fingerprints" % (len(db), len(db.fp_names), n)}
+        pos = {0, 1, n - 1, n - 2}
+        for k in (14, 15, 16, 17):
+            pos |= {p for p in (2 ** k - 2, 2 ** k - 1, 2 ** k, 2 ** k + 1) if p < n}
+        pos |= {int(x) for x in r.randint(0, n, size=60)}
+        for i in sorted(pos):
+            got = db[i]
+            if dump_fp(got) != dump_fp(fps[i]) or got.name != fps[i].name or got.get_prop("pi") != i:
+                return {"key": "row-differs:very-large-batch", "what": "db[%d] of a %d-row batch is not the fingerprint that was put in (name %r, pi %r)" % (i, n, got.name, got.props.get("pi"))}
+            nm = fps[i].name
+            want = [j for j in (i - 1, i, i + 1) if 0 <= j < n and fps[j].name == nm]
+            if [int(x) for x in db.fp_names_to_indices[nm]] != want:
+                return {"key": "name-index-differs:very-large-batch", "what": "rows of name %r: %s, expected %s" % (nm, list(db.fp_names_to_indices[nm]), want)}
+            if [dump_fp(x) for x in db[nm]] != [dump_fp(fps[j]) for j in want]:
+                return {"key": "name-lookup-differs:very-large-batch", "what": "db[%r] does not return rows %s" % (nm, want)}
+        if list(db.fp_names) != [f.name for f in fps]:
+            return {"key": "names-differ:very-large-batch", "what": "fp_names is not the list of names in insertion order"}
+        if [int(x) for x in db.get_prop("pi")] != list(range(n)):
+            return {"key": "props-misaligned:very-large-batch", "what": "the property column is not aligned with the rows"}
+        return None
 
     def gen_zero_cases(self):
         """databases whose matrix holds explicitly stored zeros (legitimate CSR: `X.data[X.data < t] = 0` leaves them behind;
@@ -212,7 +264,7 @@ class C05(vlib.Check):
 
     # ------------------------------------------------------------------ correspondence
     def impl(self, case):
-        if case.get("t") == "zeros":
+        if case.get("t") in ("zeros", "bigadd"):
             return {"steps": []}
         run = ImplRun(self.tmp())
         steps = []
@@ -226,7 +278,7 @@ class C05(vlib.Check):
         return {"steps": steps}
 
     def model_ops(self, case):
-        if case.get("t") == "zeros":
+        if case.get("t") in ("zeros", "bigadd"):
             return [{"op": "db.reset"}]
         lines = [{"op": "db.reset"}]
         for k, op in enumerate(case["ops"]):
@@ -236,7 +288,7 @@ class C05(vlib.Check):
         return lines
 
     def model_answer(self, case, answers):
-        if case.get("t") == "zeros":
+        if case.get("t") in ("zeros", "bigadd"):
             return {"steps": []}
         pos = 1
         steps = []
@@ -262,6 +314,8 @@ class C05(vlib.Check):
 
     # ------------------------------------------------------------------ the property itself
     def prop(self, case):
+        if case.get("t") == "bigadd":
+            return self._bigadd_prop(case)
         if case.get("t") == "zeros":
             return self._zeros_prop(case)
         run = ImplRun(self.tmp())
@@ -354,7 +408,7 @@ class C05(vlib.Check):
         return None
 
     def nontrivial(self, case, a_impl):
-        if case.get("t") == "zeros":
+        if case.get("t") in ("zeros", "bigadd"):
             return vlib.canon(case)
         ops = [o["op"] for o in case["ops"]]
         if any(o in ("subset", "as_type", "copy", "fold", "concat", "pickle", "savez") for o in ops) and \
@@ -363,7 +417,7 @@ class C05(vlib.Check):
         return None
 
     def neighbours(self, case):
-        if case.get("t") == "zeros":
+        if case.get("t") in ("zeros", "bigadd"):
             return []
         # prefixes of the history
         return [{"t": "hist", "ops": case["ops"][:k]} for k in range(len(case["ops"]) - 1, 0, -1)]
